@@ -83,12 +83,14 @@ fn stress(ctl: &Arc<Ctl>, threads: usize, per_thread: usize, counters: i64, main
     ctl.lock_monitoring.store(true, Ordering::Relaxed);
     let acked: Arc<Vec<AtomicU64>> = Arc::new((0..counters).map(|_| AtomicU64::new(0)).collect());
     let merges_ok = Arc::new(AtomicU64::new(0));
+    let ticks_ok = Arc::new(AtomicU64::new(0));
     let intervals: Arc<Mutex<Vec<(u64, u64)>>> = Arc::new(Mutex::new(Vec::new()));
     let clock = Arc::new(AtomicU64::new(0));
     let barrier = Arc::new(Barrier::new(threads));
     let mut hs = Vec::new();
     for t in 0..threads {
         let (db, acked, merges_ok, intervals, clock, barrier) = (db.clone(), acked.clone(), merges_ok.clone(), intervals.clone(), clock.clone(), barrier.clone());
+        let ticks_ok = ticks_ok.clone();
         hs.push(std::thread::spawn(move || {
             barrier.wait();
             for i in 0..per_thread {
@@ -102,6 +104,11 @@ fn stress(ctl: &Arc<Ctl>, threads: usize, per_thread: usize, counters: i64, main
                 }
                 if i % 4 == 0 && db.execute_write(&format!("MERGE (:U {{k: {}}})", i / 4), None).is_ok() {
                     merges_ok.fetch_add(1, Ordering::SeqCst);
+                }
+                // a write nobody overwrites: every acknowledged one must stay (a counter only shows
+                // its last write, so a lost intermediate increment is invisible there)
+                if i % 3 == 0 && db.execute_write(&format!("CREATE (:Tick {{t: {t}, i: {i}}})"), None).is_ok() {
+                    ticks_ok.fetch_add(1, Ordering::SeqCst);
                 }
             }
         }));
@@ -165,6 +172,18 @@ fn stress(ctl: &Arc<Ctl>, threads: usize, per_thread: usize, counters: i64, main
     // what was acknowledged must also be there after the handle is closed and the files are opened
     // again (a commit that waited for the writer lock while a compaction ran must be replayed)
     let values_before: Vec<Option<i64>> = (0..counters).map(|k| counter_value(&db, k)).collect();
+    {
+        let ticks = count_label(&db, "MATCH (t:Tick) WHERE t.i IS NOT NULL AND t.t IS NOT NULL RETURN count(t) AS n");
+        let want = ticks_ok.load(Ordering::SeqCst) as i64;
+        if ticks != Some(want) {
+            out.violations.push(Violation {
+                signature: "C09|acknowledged-write-lost|free-running".into(),
+                summary: format!("{want} CREATE (:Tick {{t, i}}) statements were acknowledged; {ticks:?} Tick nodes carry their properties"),
+                detail: json!({"threads": threads, "per_thread": per_thread, "maintenance_thread": maintenance}),
+                replay: json!({"engine":"concmon","property":"C09","kind":"stress-ticks","threads":threads}),
+            });
+        }
+    }
     let reopen_check = |db: Arc<CDb>, out: &mut CaseOut| -> Option<Arc<CDb>> {
         let inner = Arc::try_unwrap(db).ok()?;
         inner.close().ok()?;
@@ -179,6 +198,16 @@ fn stress(ctl: &Arc<Ctl>, threads: usize, per_thread: usize, counters: i64, main
                     replay: json!({"engine":"concmon","property":"C09","kind":"stress-reopen","threads":threads}),
                 });
             }
+        }
+        let ticks = count_label(&again, "MATCH (t:Tick) WHERE t.i IS NOT NULL AND t.t IS NOT NULL RETURN count(t) AS n");
+        let want = ticks_ok.load(Ordering::SeqCst) as i64;
+        if ticks != Some(want) {
+            out.violations.push(Violation {
+                signature: "C09|acknowledged-write-lost-after-reopen|free-running".into(),
+                summary: format!("{want} CREATE (:Tick {{t, i}}) statements were acknowledged; after reopening {ticks:?} Tick nodes carry their properties"),
+                detail: json!({"threads": threads, "per_thread": per_thread, "maintenance_thread": maintenance}),
+                replay: json!({"engine":"concmon","property":"C09","kind":"stress-reopen","threads":threads}),
+            });
         }
         out.count("reopen_checks_after_stress", 1);
         Some(Arc::new(again))
